@@ -237,6 +237,13 @@ def gen_spec(rng):
             args.append(a)
     prefix = rng.choice(["APP", "APP", "my-app", "C05x", "a.b", True, "X_", "app2"])
     spec = {"prefix": prefix, "prog": "c05prog", "group": "g" if use_group else None, "args": args}
+    if not with_sub and rng.random() < 0.12:
+        n_ap = rng.randint(2, 3)
+        ap_args = []
+        for k in rng.sample(["x", "y", "lr", "opt.z", "name"], n_ap):
+            h = rng.choice(["int", "int", "bool", "optint", "listint", "enum", "posint"])
+            ap_args.append({"key": k, "hint": h, "default": gen_default(rng, h)})
+        spec["ap"] = {"key": rng.choice(["inner", "job"]), "args": ap_args}      # a parser inside the parser (ActionParser)
     if with_sub:
         choices = {}
         for name in rng.sample(SUB_NAMES, 2):
@@ -247,6 +254,34 @@ def gen_spec(rng):
             choices[name] = sargs
         spec["sub"] = {"dest": rng.choice(["subcommand", "cmd"]), "choices": choices}
     return spec
+
+
+def option_strings(spec):
+    """the option strings of the top-level parser, written from the spec (argparse accepts a unique prefix as an abbreviation)"""
+    out = ["--help", "--cfg", "--print_config"]
+    for a in all_args(spec):
+        out.append("--" + a["key"])
+        if a["hint"] == "yesno":
+            out.append("--no_" + a["key"])
+    if spec.get("ap"):
+        out.append("--" + spec["ap"]["key"])
+    return out
+
+
+def truncated_keys(spec):
+    """undefined keys that are character-wise prefixes of existing dests without ending at a dot boundary (mod for model.x,
+    trainer.opt for trainer.optimizer.lr) and that at least two options start with (so that argv cannot take them for an abbreviation)"""
+    dests = [a["key"] for a in all_args(spec)]
+    opts = option_strings(spec)
+    out = set()
+    for d in dests:
+        for n in range(1, len(d)):
+            p = d[:n]
+            if p.endswith(".") or p in dests or any(x.startswith(p + ".") for x in dests):
+                continue
+            if sum(1 for o in opts if o.startswith("--" + p)) >= 2:
+                out.add(p)
+    return sorted(out)
 
 
 def gen_arg_value(rng, a):
@@ -265,6 +300,14 @@ def gen_case(rng):
         name = rng.choice(sorted(spec["sub"]["choices"]))
         sargs = [dict(a, key=name + "." + a["key"]) for a in spec["sub"]["choices"][name]]
         chosen = chosen + rng.sample(sargs, rng.randint(0, len(sargs)))
+    group_level = []
+    if spec.get("ap"):
+        leaves = [dict(a, key=spec["ap"]["key"] + "." + a["key"]) for a in spec["ap"]["args"]]
+        picked = rng.sample(leaves, rng.randint(1, len(leaves)))
+        chosen = chosen + picked
+        if rng.random() < 0.8:
+            # some leaves arrive through the group-level spelling (--inner='{...}', APP_INNER='{...}'), the others leaf by leaf
+            group_level = [a["key"] for a in rng.sample(picked, rng.randint(1, max(1, len(picked) - 1)))]
     settings = [[a["key"], gen_arg_value(rng, a)] for a in chosen]
     if spec.get("sub"):
         settings.insert(rng.randint(0, len(settings)), [spec["sub"]["dest"], name])
@@ -287,6 +330,9 @@ def gen_case(rng):
         used = {a["key"] for a in args}
         groups = sorted({a["key"].rsplit(".", 1)[0] for a in args if "." in a["key"]})
         key = rng.choice(["zz", "unknown_k"] + [g + ".zz" for g in groups])
+        trunc = truncated_keys(spec)
+        if trunc and rng.random() < 0.6:
+            key = rng.choice(trunc)     # a truncated name: a character-wise prefix of existing dests that is not an inner node
         if key not in used:
             settings.insert(rng.randint(0, len(settings)), [key, rng.choice([1, "s", True])])
             kind = "unknown"
@@ -309,6 +355,8 @@ def gen_case(rng):
             settings.append([a["key"] + "." + rng.choice(["a", "k_2"]), rng.choice([1, 5, -2])])
             kind = "dict-item"
     case = {"spec": spec, "settings": settings, "kind": kind}
+    if group_level and kind == "valid":
+        case["group_level"] = group_level
     items = []
     for k, v in settings:
         a = arg_of(spec, k)
@@ -393,6 +441,12 @@ def build(spec, mode="yaml"):
     p = ArgumentParser(prog=spec["prog"], exit_on_error=False, default_env=True, env_prefix=spec["prefix"], parser_mode=mode)
     p.add_argument("--cfg", action="config")
     add_args(p, spec["args"], spec.get("group"))
+    if spec.get("ap"):
+        from jsonargparse import ActionParser
+
+        ip = ArgumentParser(exit_on_error=False, parser_mode=mode)
+        add_args(ip, spec["ap"]["args"])
+        p.add_argument("--" + spec["ap"]["key"], action=ActionParser(parser=ip))
     sub = spec.get("sub")
     if sub:
         sc = p.add_subcommands(dest=sub["dest"], required=True)
@@ -406,6 +460,8 @@ def build(spec, mode="yaml"):
 def all_args(spec):
     """every argument with its full key (sub-command arguments prefixed by the sub-command name)"""
     out = list(spec["args"])
+    if spec.get("ap"):
+        out.extend(dict(a, key=spec["ap"]["key"] + "." + a["key"]) for a in spec["ap"]["args"])
     for name, sargs in (spec.get("sub") or {}).get("choices", {}).items():
         out.extend(dict(a, key=name + "." + a["key"]) for a in sargs)
     return out
@@ -498,8 +554,24 @@ def env_name(prefix, prog, key):
     return name.upper()
 
 
-def env_of(spec, settings, bare=False):
+def split_group_level(case):
+    """(mapping for the group-level spelling or None, the other settings)"""
+    gl = case.get("group_level") or []
+    ap = case["spec"].get("ap")
+    if not gl or not ap:
+        return None, case["settings"]
+    pre = ap["key"] + "."
+    inner = [[k[len(pre):], v] for k, v in case["settings"] if k in gl]
+    rest = [[k, v] for k, v in case["settings"] if k not in gl]
+    return nested_of(inner), rest
+
+
+def env_of(spec, settings, bare=False, case=None):
     out = {}
+    if case is not None:
+        mapping, settings = split_group_level(case)
+        if mapping is not None:
+            out[env_name(spec["prefix"], spec["prog"], spec["ap"]["key"])] = jdumps(mapping)
     for key, v in settings:
         a = arg_of(spec, key)
         if a is not None and a.get("nargs") is not None and isinstance(v, list):
@@ -514,7 +586,10 @@ def argv_of(case, eq):
     """global options, then the sub-command name, then its options (spelled without the sub-command prefix)"""
     spec, sub = case["spec"], case["spec"].get("sub")
     top, below, chosen = [], [], None
-    for k, v in case["settings"]:
+    mapping, settings = split_group_level(case)
+    if mapping is not None:
+        top.extend(["--%s=%s" % (spec["ap"]["key"], jdumps(mapping))] if eq else ["--" + spec["ap"]["key"], jdumps(mapping)])
+    for k, v in settings:
         if sub and k == sub["dest"]:
             chosen = v
             continue
@@ -753,12 +828,12 @@ def run_channels(case, only=None):
         elif ch == "obj_dotted":
             out[ch] = outcome(lambda: build(spec).parse_object(json.loads(jdumps(dotted))))
         elif ch == "env":
-            with mock.patch.dict(os.environ, env_of(spec, settings)):
+            with mock.patch.dict(os.environ, env_of(spec, settings, case=case)):
                 out[ch] = outcome(lambda: build(spec).parse_args([]))
         elif ch == "parse_env":
-            out[ch] = outcome(lambda: build(spec).parse_env(env_of(spec, settings)))
+            out[ch] = outcome(lambda: build(spec).parse_env(env_of(spec, settings, case=case)))
         elif ch == "env_bare":
-            with mock.patch.dict(os.environ, env_of(spec, settings, bare=True)):
+            with mock.patch.dict(os.environ, env_of(spec, settings, bare=True, case=case)):
                 out[ch] = outcome(lambda: build(spec).parse_args([]))
         elif ch == "doc_word":
             out[ch] = outcome(lambda: build(spec).parse_string(jdumps(nested, words=True)))
@@ -873,7 +948,24 @@ def deviation(case, outs):
     return None
 
 
+def abbrev_safe(case):
+    """no undefined setting key is a prefix of exactly one option (argparse would take it for an abbreviation on the command line:
+    baseline behaviour, outside the property) — kept invariant while shrinking"""
+    opts = option_strings(case["spec"])
+    for k, _ in case["settings"]:
+        if arg_of(case["spec"], k) is None and k != (case["spec"].get("sub") or {}).get("dest"):
+            if "." in k and arg_of(case["spec"], k.rsplit(".", 1)[0]) is not None:
+                continue    # an item of a dict-typed argument
+            if sum(1 for o in opts if o.startswith("--" + k)) == 1:
+                return False
+    return True
+
+
 def shrink_case(case, still_bad):
+    still_bad_0 = still_bad
+
+    def still_bad(c):      # noqa: F811
+        return abbrev_safe(c) and still_bad_0(c)
     cur = case
     changed = True
     while changed:
@@ -914,9 +1006,16 @@ def judge(ctx: Ctx, case, origin):
         ctx.known(fid, "%s (e.g. settings %s)" % (dev[:200], json.dumps(case["settings"], ensure_ascii=True)[:120]))
         return outs, False
 
+    disagree = dev.startswith("channels disagree")
+
     def still(c):
+        # the shrunk case must fail in the same way: "invalid settings accepted by every channel" depends on the settings being the
+        # invalid ones, so then only unused arguments are removed, never settings
+        if not disagree and c["settings"] != case["settings"]:
+            return False
         o = run_channels(c)
-        return deviation(c, o) is not None and not known_signature(c, o)
+        d = deviation(c, o)
+        return d is not None and d.startswith("channels disagree") == disagree and not known_signature(c, o)
 
     try:
         small = shrink_case(case, still)
@@ -1063,7 +1162,8 @@ def outside_model(case):
     """what the Channels model does not have: sub-commands, or a setting for a foreign argument"""
     fk = foreign_keys(case["spec"])
     # (the item-by-item command line spelling of a dict value, --d.item=v, is not a rendering of the model either)
-    return bool(case["spec"].get("sub")) or bool(case.get("argv_items")) or any(k in fk for k, _ in case["settings"])
+    return (bool(case["spec"].get("sub")) or bool(case["spec"].get("ap")) or bool(case.get("argv_items"))
+            or any(k in fk for k, _ in case["settings"]))
 
 
 def drop_keys(c, keys, pre=""):
@@ -1315,6 +1415,47 @@ def correspond_yesno(ctx: Ctx, rng):
     ctx.extra["yesno_words_checked"] = len(words)
 
 
+def correspond_branch_keys(ctx: Ctx, rng, n):
+    """isBranchKey (model, dot boundary regenerated from the source) vs _actions._is_branch_key on prefixes of dests;
+    the registration order of an ActionParser group (Gen flag) vs the live parser._actions"""
+    from jsonargparse._actions import _is_branch_key
+
+    lines, reals = [], []
+    for _ in range(n):
+        spec = gen_spec(rng)
+        if spec.get("sub") or spec.get("ap"):
+            continue
+        parser = build(spec)
+        P = {"prefix": None, "decls": [{"key": a["key"].split("."), "kind": "json"} for a in spec["args"]]}
+        keys = set(["zz", "g", "h", "g.s", "model"])
+        for a in spec["args"]:
+            d = a["key"]
+            keys.update(d[:i] for i in range(1, len(d) + 1))
+        for key in sorted(k for k in keys if not k.endswith(".")):
+            lines.append({"op": "branch", "parser": P, "key": key})
+            reals.append((spec, key, bool(_is_branch_key(parser, key))))
+    lines.append({"op": "tables"})
+    res = model_batch(ctx, lines)
+    if res is None:
+        return
+    for (spec, key, real), m in zip(reals, res):
+        ctx.count()
+        if m.get("v") is not real:
+            ctx.tie_break("correspondence isBranchKey vs _is_branch_key disagrees",
+                          json.dumps({"dests": [a["key"] for a in spec["args"]], "key": key, "real": real, "model": m.get("v")}))
+            return
+    ctx.extra["branch_keys_checked"] = len(reals)
+    tables = res[-1]
+    spec = {"prefix": "APP", "prog": "c05prog", "group": None, "args": [{"key": "top", "hint": "int", "default": 0}],
+            "ap": {"key": "inner", "args": [{"key": "x", "hint": "int", "default": 0}, {"key": "y", "hint": "int", "default": 0}]}}
+    dests = [a.dest for a in build(spec)._actions]
+    live_first = "inner" in dests and dests.index("inner") < min(i for i, d in enumerate(dests) if d.startswith("inner."))
+    ctx.count()
+    if tables.get("groupActionFirst") is not live_first:
+        ctx.tie_break("Gen/ChannelTables.groupActionFirst does not describe parser._actions of a parser with an ActionParser group",
+                      json.dumps({"dests": dests, "table": tables}))
+
+
 def model_batch(ctx: Ctx, lines):
     if not lines:
         return []
@@ -1368,7 +1509,7 @@ def correspond_channels(ctx: Ctx, cases_outs):
         if not model_ok(case):
             why = "kind " + case["kind"] if case["kind"] not in ("valid", "unknown") else (
                 "clash-named argument, open finding" if clash_args(case) else (
-                    "sub-commands / dict items spelled --d.item=v: outside the model" if outside_model(case) else "value outside the grammar"))
+                    "sub-commands / ActionParser groups / dict items spelled --d.item=v: outside the model" if outside_model(case) else "value outside the grammar"))
             ctx.hist("model_routing", "oracle only (%s)" % why)
             continue
         ctx.hist("model_routing", "model and oracle")
@@ -1459,7 +1600,7 @@ def run(ctx: Ctx):
         "defaults are in normal form (finding 15e concerns non-normal defaults, property C10)",
         "key names and env prefixes are ASCII (str.upper on non-ASCII is outside the envVar model)",
     ]
-    ctx.lean_build(extractors=["ns_tables", "yesno_words"])
+    ctx.lean_build(extractors=["ns_tables", "yesno_words", "channel_tables"])
     ctx.extra["parser_modes_available"] = dict(available_modes())
 
     from ..lib import corpus as corpus_mod
@@ -1481,6 +1622,7 @@ def run(ctx: Ctx):
     correspond_envvar(ctx, ctx.rng, ctx.budget(300, 3000))
     correspond_text(ctx, ctx.rng, ctx.budget(300, 3000))
     correspond_yesno(ctx, ctx.rng)
+    correspond_branch_keys(ctx, ctx.rng, ctx.budget(25, 200))
     if ctx.search_boost > 1:    # a tie is broken: search harder for a concrete failing input
         for _ in range(ctx.budget(2 * n_random, n_random // 2)):
             cases.append((gen_case(ctx.rng), "generated (boosted)"))
